@@ -41,6 +41,9 @@ type env struct {
 	tg        *big.Int
 	delivered [4][]byte // S2C payloads as delivered to the client in this run
 	sent      [4][]byte // C2S payloads as sent by the client
+	// state of a key-holding adversary that runs steps 5-8 itself (move key-holder-group)
+	advA, advP *big.Int
+	advG       int
 }
 
 func (e *env) newNonce() []byte {
@@ -57,6 +60,9 @@ type move struct {
 	I    int    // message index 1..3
 	F    func(e *env, v int, payload []byte) []byte
 }
+
+// moveF3: moves that additionally rewrite server message 3 (dh_gen) of the same run
+var moveF3 = map[string]func(e *env, v int, payload []byte) []byte{}
 
 func flip(b []byte, bit int) {
 	if len(b) > 0 {
@@ -139,6 +145,69 @@ func reGen(payload []byte, f func(m *mt.DhGenOk) bin.Encoder) []byte {
 	})
 }
 
+// groups offered by the key-holding adversary: (prime, generator)
+type advGroup struct {
+	name string
+	p    func(e *env) *big.Int
+	g    int
+}
+
+func advGroups() []advGroup {
+	tg := func(e *env) *big.Int { return e.tg }
+	m := func(bits int) func(e *env) *big.Int { return func(*env) *big.Int { return xkit.MODPPrime(bits) } }
+	return []advGroup{
+		{"production-prime", tg, 2}, {"production-prime", tg, 3}, {"production-prime", tg, 4}, {"production-prime", tg, 5},
+		{"production-prime", tg, 6}, {"production-prime", tg, 7}, {"production-prime", tg, 1}, {"production-prime", tg, 8},
+		{"rfc3526-2048", m(2048), 2}, {"rfc3526-2048", m(2048), 5}, {"rfc3526-3072", m(3072), 2}, {"rfc3526-1536", m(1536), 4},
+	}
+}
+
+// groupAcceptable: the specification's verdict, from first principles (Euler's criterion, not the table)
+func groupAcceptable(g int, p *big.Int) bool {
+	if p.BitLen() != 2048 || g < 2 || g > 7 || !isPrime(p) {
+		return false
+	}
+	half := new(big.Int).Rsh(new(big.Int).Sub(p, big.NewInt(1)), 1)
+	if !isPrime(half) {
+		return false
+	}
+	return new(big.Int).Exp(big.NewInt(int64(g)), half, p).Cmp(big.NewInt(1)) == 0
+}
+
+func init() {
+	moveF3["key-holder-group"] = func(e *env, v int, p []byte) []byte {
+		if e.advA == nil || e.sent[3] == nil {
+			return p
+		}
+		_, body, err := xkit.Body(e.sent[3])
+		if err != nil {
+			return p
+		}
+		var req mt.SetClientDHParamsRequest
+		if req.Decode(&bin.Buffer{Buf: body}) != nil {
+			return p
+		}
+		k, iv := crypto.TempAESKeys(new(big.Int).SetBytes(e.newNonce()), req.ServerNonce.BigInt())
+		data, err := crypto.DecryptExchangeAnswer(req.EncryptedData, k, iv)
+		if err != nil {
+			return p
+		}
+		var ci mt.ClientDHInnerData
+		if ci.Decode(&bin.Buffer{Buf: data}) != nil {
+			return p
+		}
+		shared := new(big.Int).Exp(new(big.Int).SetBytes(ci.GB), e.advA, e.advP)
+		if shared.BitLen() > 2048 {
+			return p
+		}
+		var key crypto.Key
+		shared.FillBytes(key[:])
+		var nn bin.Int256
+		copy(nn[:], e.newNonce())
+		return reGen(p, func(m *mt.DhGenOk) bin.Encoder { m.NewNonceHash1 = crypto.NonceHash1(nn, key); return m })
+	}
+}
+
 func moves() []move {
 	two1984 := new(big.Int).Lsh(big.NewInt(1), 1984)
 	gaVals := func(e *env) []*big.Int {
@@ -155,7 +224,9 @@ func moves() []move {
 	return []move{
 		// ---- ResPQ ----
 		{"respq-nonce-bitflip", "s2c", 1, func(e *env, v int, p []byte) []byte { return reResPQ(p, func(m *mt.ResPQ) { flip(m.Nonce[:], v) }) }},
-		{"respq-server-nonce-bitflip", "s2c", 1, func(e *env, v int, p []byte) []byte { return reResPQ(p, func(m *mt.ResPQ) { flip(m.ServerNonce[:], v) }) }},
+		{"respq-server-nonce-bitflip", "s2c", 1, func(e *env, v int, p []byte) []byte {
+			return reResPQ(p, func(m *mt.ResPQ) { flip(m.ServerNonce[:], v) })
+		}},
 		{"respq-own-rsa-key", "s2c", 1, func(e *env, v int, p []byte) []byte {
 			return reResPQ(p, func(m *mt.ResPQ) { m.ServerPublicKeyFingerprints = []int64{e.ownFP} })
 		}},
@@ -186,7 +257,9 @@ func moves() []move {
 			})
 		}},
 		// ---- Server_DH_Params ----
-		{"sdh-nonce-bitflip", "s2c", 2, func(e *env, v int, p []byte) []byte { return reSDH(p, func(m *mt.ServerDHParamsOk) { flip(m.Nonce[:], v) }) }},
+		{"sdh-nonce-bitflip", "s2c", 2, func(e *env, v int, p []byte) []byte {
+			return reSDH(p, func(m *mt.ServerDHParamsOk) { flip(m.Nonce[:], v) })
+		}},
 		{"sdh-server-nonce-bitflip", "s2c", 2, func(e *env, v int, p []byte) []byte {
 			return reSDH(p, func(m *mt.ServerDHParamsOk) { flip(m.ServerNonce[:], v) })
 		}},
@@ -194,7 +267,9 @@ func moves() []move {
 			return reSDH(p, func(m *mt.ServerDHParamsOk) { flip(m.EncryptedAnswer, v) })
 		}},
 		{"sdh-answer-truncated", "s2c", 2, func(e *env, v int, p []byte) []byte {
-			return reSDH(p, func(m *mt.ServerDHParamsOk) { m.EncryptedAnswer = m.EncryptedAnswer[:len(m.EncryptedAnswer)-16*(1+v%3)] })
+			return reSDH(p, func(m *mt.ServerDHParamsOk) {
+				m.EncryptedAnswer = m.EncryptedAnswer[:len(m.EncryptedAnswer)-16*(1+v%3)]
+			})
 		}},
 		{"sdh-answer-zeroed", "s2c", 2, func(e *env, v int, p []byte) []byte {
 			return reSDH(p, func(m *mt.ServerDHParamsOk) { m.EncryptedAnswer = make([]byte, 16*(2+v%30)) })
@@ -242,6 +317,27 @@ func moves() []move {
 				in.DhPrime = xkit.MODPPrime(bits).Bytes()
 				in.G = []int{2, 2, 2, 4}[v%4]
 			})
+		}},
+		// A peer that HOLDS the trusted private key (here: knows new_nonce) and runs steps 5-8 itself with a
+		// group of its choice, everything else consistent (g_a = g^a, new_nonce_hash1 of the real shared key):
+		// the only thing that can stop the exchange is the client's check of the DH parameters. Oracle:
+		// completion is a violation exactly when the group is not a 2048-bit safe prime with a generator
+		// in 2..7 that is a quadratic residue (Euler's criterion).
+		{"key-holder-group", "s2c", 2, func(e *env, v int, p []byte) []byte {
+			gs := advGroups()
+			gr := gs[v%len(gs)]
+			e.advP, e.advG = gr.p(e), gr.g
+			lo := new(big.Int).Lsh(big.NewInt(1), 1984)
+			hi := new(big.Int).Sub(e.advP, lo)
+			var ga *big.Int
+			for try := 0; try < 64; try++ {
+				e.advA = new(big.Int).SetBytes(e.rng.Bytes(256))
+				ga = new(big.Int).Exp(big.NewInt(int64(e.advG)), e.advA, e.advP)
+				if ga.Cmp(lo) > 0 && ga.Cmp(hi) < 0 {
+					break
+				}
+			}
+			return reInner(e, p, func(in *mt.ServerDHInnerData) { in.G, in.DhPrime, in.GA = e.advG, e.advP.Bytes(), ga.Bytes() })
 		}},
 		{"inner-prime-bitflip", "s2c", 2, func(e *env, v int, p []byte) []byte {
 			return reInner(e, p, func(in *mt.ServerDHInnerData) { flip(in.DhPrime, v) })
@@ -352,6 +448,11 @@ func runSession(base *env, key exchange.PrivateKey, rc runCfg, mv *move) session
 			if mv != nil && mv.Dir == "s2c" && mv.I == i {
 				p = mv.F(e, rc.Variant, p)
 			}
+			if mv != nil && i == 3 {
+				if f3 := moveF3[mv.Name]; f3 != nil {
+					p = f3(e, rc.Variant, p)
+				}
+			}
 			if i <= 3 {
 				e.delivered[i] = append([]byte(nil), p...)
 			}
@@ -371,7 +472,7 @@ func runSession(base *env, key exchange.PrivateKey, rc runCfg, mv *move) session
 	ctx, cancel := context.WithTimeout(context.Background(), 60*time.Second)
 	defer cancel()
 	go func() {
-		_, _ = exchange.NewExchanger(l.Server, 2).WithRand(hx.NewRand(rc.Seed+1)).WithTimeout(5 * time.Second).Server(key).Run(ctx)
+		_, _ = exchange.NewExchanger(l.Server, 2).WithRand(hx.NewRand(rc.Seed + 1)).WithTimeout(5 * time.Second).Server(key).Run(ctx)
 	}()
 	ex := exchange.NewExchanger(l.Client, 2).WithRand(e.cr).WithTimeout(700 * time.Millisecond)
 	if rc.Temp {
@@ -592,6 +693,13 @@ func main() {
 			c.Violate("client-panic-"+name, fmt.Sprintf("move %s (variant %d): ClientExchange.Run panicked", name, rc.Variant), sh, ix, rc)
 		case mv == nil && s.err != nil:
 			c.Violate("baseline-failed", fmt.Sprintf("honest exchange through the relaying proxy failed: %v", s.err), sh, ix, rc)
+		case mv != nil && mv.Name == "key-holder-group":
+			gr := advGroups()[rc.Variant%len(advGroups())]
+			okGroup := groupAcceptable(gr.g, gr.p(e))
+			c.Count(fmt.Sprintf("key-holder-group:%s:g=%d:acceptable=%v:completed=%v", gr.name, gr.g, okGroup, s.err == nil))
+			if s.err == nil && !okGroup {
+				c.Violate("accepted-unsafe-group", fmt.Sprintf("a key-holding peer offered %s with g = %d (not a 2048-bit safe prime with a quadratic-residue generator in 2..7) and the client completed the exchange (key id %x)", gr.name, gr.g, s.res.AuthKey.ID), sh, ix, rc)
+			}
 		case mv != nil && s.err == nil && mv.Name == "respq-pq-bitflip":
 			c.Count("no-claim:altered-composite-pq-accepted")
 		case mv != nil && s.err == nil:
@@ -623,12 +731,14 @@ func main() {
 				nv = 8
 			case "inner-group-substituted":
 				nv = 4
+			case "key-holder-group":
+				nv = 12
 			case "respq-pq-unfactorable":
 				nv = 6
 			case "inner-generator-substituted", "inner-ga-out-of-range":
 				nv = 10
 			}
-			if !c.Thorough() && nv > 1 && mv.Name != "respq-pq-unfactorable" && mv.Name != "inner-group-substituted" {
+			if !c.Thorough() && nv > 1 && mv.Name != "respq-pq-unfactorable" && mv.Name != "inner-group-substituted" && mv.Name != "key-holder-group" {
 				// quick: three values per run, rotating with the seed
 				for k := 0; k < 3; k++ {
 					one(runCfg{Move: mv.Name, Variant: (int(c.Seed)*3 + k) % nv, Seed: c.Rng.U64(), Temp: c.Rng.Bool()}, mv)
@@ -644,6 +754,6 @@ func main() {
 			}
 		}
 	}
-	c.Obs.Rule = "one adversary move per exchange, every move of the library once per repetition (1 in quick, 12 in thorough) with a random bit position / the enumerated substituted values (all in thorough, three per run in quick): ResPQ {nonce, server_nonce, fingerprint flips; own RSA key; no fingerprints; pq > 2^63; pq in {0,1,2,3,1000003, largest prime < 2^63}; one pq bit flipped (must not panic or hang); replay}, Server_DH_Params {nonce flips; ciphertext flip / truncation / zeros; answer from a peer without new_nonce; replay; fail message; inner nonce flips; prime substituted by composite, non-safe prime, 2047/2049-bit, small, 0, 2^2047; prime bit flip; whole group replaced by an RFC 3526 safe prime of 1536 / 2048 / 3072 bits with g = 2 or 4; generator 0,1,8,9,-1 or failing the residue rule; g_a in {0,1,p-1,p,2,2^1984-5,2^1984,p-2^1984,p-2^1984+3,p+12345}}, dh_gen {nonce flips, hash flip / random, retry, fail, replay}, raw bit flips in each server message, bit flips in the encrypted parts of the client's messages; plus two honest baselines; non-trivial = distinct (move, variant, seed)"
+	c.Obs.Rule = "one adversary move per exchange, every move of the library once per repetition (1 in quick, 12 in thorough) with a random bit position / the enumerated substituted values (all in thorough, three per run in quick): ResPQ {nonce, server_nonce, fingerprint flips; own RSA key; no fingerprints; pq > 2^63; pq in {0,1,2,3,1000003, largest prime < 2^63}; one pq bit flipped (must not panic or hang); replay}, Server_DH_Params {nonce flips; ciphertext flip / truncation / zeros; answer from a peer without new_nonce; replay; fail message; inner nonce flips; prime substituted by composite, non-safe prime, 2047/2049-bit, small, 0, 2^2047; prime bit flip; a key-holding peer that runs steps 5-8 itself with the production prime and g = 1..8 or an RFC 3526 group (oracle: Euler's criterion); whole group replaced by an RFC 3526 safe prime of 1536 / 2048 / 3072 bits with g = 2 or 4; generator 0,1,8,9,-1 or failing the residue rule; g_a in {0,1,p-1,p,2,2^1984-5,2^1984,p-2^1984,p-2^1984+3,p+12345}}, dh_gen {nonce flips, hash flip / random, retry, fail, replay}, raw bit flips in each server message, bit flips in the encrypted parts of the client's messages; plus two honest baselines; non-trivial = distinct (move, variant, seed)"
 	c.Finish()
 }
